@@ -184,7 +184,22 @@ GUARDS = {
 }
 
 
+def opaque_conversion_session(F):
+    """Session in which the conversions called by the analysed body itself stay uninterpreted
+    (the route / guard / alpha rules look at which conversion is called, not at its value)."""
+    S = Session(F, app_canon=app_canon)
+
+    def keep_conversions_opaque(rpath, c, ev, fr):
+        if c["n"] in ("from_color_unclamped", "into_color_unclamped") and fr.depth == 0:
+            return ev.app_name(rpath, c, fr)
+        return None
+    S.ctx.force_uninterp = keep_conversions_opaque
+    return S
+
+
 def check_guards(F, rep, S):
+    # only the guards of the body itself: nested conversions stay uninterpreted
+    S = opaque_conversion_session(F)
     impls = conv_impls(F)
     seen = 0
     for (tgt, src), lst in sorted(impls.items()):
@@ -369,10 +384,11 @@ def run(F, rep, tier="quick", extra=None, only=None):
                     "axioms cbrt(x)^3=x, sqrt(x)^2=x; cbrt strictly monotone (threshold rewriting)", "hand-edge and TypeId guard tables confirmed by reading (rules/c01.py)"]
     S = Session(F, app_canon=app_canon, positive=("wp.x", "wp.y", "wp.z"))
     rep.assumptions.append("white point tristimulus values wp.x, wp.y, wp.z are positive (CONST-WP checks the literals)")
-    check_routes(F, rep, S)
+    SO = opaque_conversion_session(F)
+    check_routes(F, rep, SO)
     check_guards(F, rep, S)
     check_inverses(F, rep, S)
-    check_alpha(F, rep, S)
+    check_alpha(F, rep, SO)
     # matrix pairs: every hard-coded pair is a mutual inverse (shared with C02/C14)
     consts.check_rgb_spaces(F, rep, S)
     consts.check_oklab_matrices(F, rep, S)
